@@ -124,6 +124,45 @@ func (e *Engine) AnalyzeCtx(f *ssa.Function) *FuncAn {
 			}
 		}
 	}
+	// an integer parameter used as an index into a sequence parameter: i < len(s) (or i <= len(s)) at every site
+	for i, pi := range f.Params {
+		if _, _, isInt := e.intInfo(pi.Type()); !isInt {
+			continue
+		}
+		for j, pj := range f.Params {
+			if i == j || !isSeq(pj.Type()) {
+				continue
+			}
+			for _, slack := range []int64{1, 0} {
+				ok := true
+				for _, st := range sites {
+					ai, aj := siteArg(st, f, i), siteArg(st, f, j)
+					if ai == nil || aj == nil {
+						ok = false
+						break
+					}
+					ca := e.AnalyzeCtx(st.Parent())
+					if ca == nil || !ca.Converged {
+						ok = false
+						break
+					}
+					if ca.in[st.Block()] == nil {
+						continue
+					}
+					if !ca.Entails(st.Block(), Add(ca.LenOf(aj), ca.Lin(ai), -1).plus(-slack)) {
+						ok = false
+						break
+					}
+				}
+				if ok {
+					rel := Add(a.LenOf(pj), a.Lin(pi), -1).plus(-slack)
+					entry.AddFact(rel)
+					notes = append(notes, rel.String()+" >= 0")
+					break
+				}
+			}
+		}
+	}
 	if len(entry.facts) == 0 {
 		a2 := e.Analyze(f)
 		e.ctxFas[f] = a2
